@@ -12,6 +12,16 @@ CHECKS = {
          "Every belt mechanism is called on enumerated boundary structure (all CTS lengths, wide-block lengths 32..208, header lengths straddling 16, counters wrapping 32/64/128 bits, alteration classes of authenticated unwrapping, FMT alphabets x word lengths, the FMT block-count table by breakpoints) and each result is recomputed by TLC from the standard's definition; not a proof over all keys/data: data octets are seeded samples.",
          "Trusted: TLC, the transcription of the standard in spec/ref (anchored by the appendix vectors in the same run), the C driver. ASan/UBSan build with exact-size buffers.",
          "DESIGN.md section 4, C01"),
+ "C10": ("model_checking",
+         "TLC exhaustive model checking of the buffering state machine spec/sm/StepApi.tla per discipline; every explored fragment script replayed on the real Start/Step/Get bundles (Get/Verify and state relocation at scripted positions); TLC judges each executed script against the one-shot reference semantics (Trace_Belt!StepsOk)",
+         "Within the bounds (fragments, total length, marks) over the boundary alphabet {0,1,blk-1,blk,blk+1,2blk-1,2blk,2blk+1} every fragment script is enumerated by TLC and executed on the real code (quick: a seeded subset of the larger families); the value oracle is the one-shot specification.",
+         "Trusted: TLC, spec/ref belt semantics (anchored in C01), the C driver; data octets are seeded. Bundles of bash/brng/botp are covered once their reference semantics is wired (see evidence key non_belt_bundles).",
+         "DESIGN.md section 4, C10"),
+ "C11": ("exploration",
+         "TLC enumerates buffer placements from the headers' rule set (spec/sm/Overlap.tla, forbidden pairs excluded, table closure checked); harness lays each placement out in one arena and calls the real function; TLC judges each recorded call against the reference semantics applied to the pre-call inputs (Trace_Belt)",
+         "All relative offsets of dest against src in [-(len+16), len+16] for the listed lengths and 11 positions of each auxiliary buffer inside/straddling the output and input regions are executed for 21 overlap-tolerant functions; result must equal F(inputs before the call).",
+         "Trusted: TLC, spec/ref belt semantics, the arena harness. ECB (no overlap statement in its header), bash/brng/DER helpers not yet driven.",
+         "DESIGN.md section 4, C11"),
  "C20": ("model_checking",
          "TLC exhaustive model checking of sm/BtokPwd.tla rules on the transition table extracted from btokPwdTransition; counterexample replay; trace validation of random walks (trace/Trace_Pwd.tla)",
          "Exhaustive: all 16x4 states x 9 events of the real function are extracted, TLC checks rules R1..R8 on that graph from every initial PIN state (complete finite space), every counterexample is re-executed on the real function, and recorded random walks are validated step by step.",
